@@ -41,7 +41,9 @@ def make_bad(r, src):
         return k, base.rstrip() + r.choice([')', ']', '}', '))'])
     if k == 'stray_token':
         t = r.choice(toks)
-        ins = r.choice([' 1 2 ', ' ) ', ' ] ', ' => ', ' , , ', ' : ', ' "s" "t" ', ' = = '])
+        long_num = ''.join(str((i * 7 + 3) % 10) for i in range(r.choice([41, 50, 80])))
+        ins = r.choice([' 1 2 ', ' ) ', ' ] ', ' => ', ' , , ', ' : ', ' "s" "t" ', ' = = ',
+                        ' %s ' % long_num, ' 1 %s ' % long_num, ' %s.5 ' % long_num, ' %s y ' % ('x' * 64), ' "%s" "t" ' % ('s' * 70)])
         return k, base[:t[0]] + ins + base[t[0]:]
     if k == 'illegal_char':
         t = r.choice(toks)
